@@ -19,7 +19,7 @@ def run(path):
         print(open(path).read()[:4000])
         print("(not an fsmmon replay file: the violation text above is the witness)")
         return 0
-    pool = fsm.CONFIGS + fsm.ENUM_CONFIGS + [v for b in fsm.DIFF_BASES for v in fsm.log_variants(b)]
+    pool = fsm.CONFIGS + fsm.ENUM_CONFIGS + fsm.BARE_CONFIGS + [v for b in fsm.DIFF_BASES for v in fsm.log_variants(b)]
     c = next((x for x in pool if x["name"] == name), None)
     if c is None:
         print("HARNESS-ERROR: unknown configuration %s" % name)
